@@ -72,6 +72,7 @@ def tasks(tier, seed):
         ts += [{"part": "urls", "lo": i, "hi": min(i + 72, len(U)), "name": "urls/%d" % i} for i in range(0, len(U), 72)]
         ts += [{"part": "opts", "url": u, "name": "opts/%d" % u} for u in (0, 287, 575, 100)]
         ts.append({"part": "diag", "name": "diag"})
+    ts.append({"part": "hostforms", "name": "hostforms"})
     ts.append({"part": "fresh", "name": "fresh"})
     for k in range(4):
         ts.append({"part": "successive", "k": k, "name": "successive/%d" % k})
@@ -195,7 +196,10 @@ def check_request(raw, u, o, draws, label):
     eff_port = port if port is not None else (80 if scheme == "ws" else 443)
     hostport = host if eff_port in (80, 443) else "%s:%d" % (host, eff_port)
     want_host = o_host if o_host is not None else hostport
-    if h.get("host") != [want_host]:
+    got_host = h.get("host")
+    if o_host is None and got_host and len(got_host) == 1 and got_host[0].lower() == want_host.lower():
+        got_host = [want_host]  # host names are case-insensitive: the URL's host may be sent lower-cased
+    if got_host != [want_host]:
         return bad("host", "Host is %r, expected %r" % (h.get("host"), [want_host]))
     if [v.lower() for v in h.get("upgrade", [])] != ["websocket"]:
         return bad("upgrade", "Upgrade is %r" % h.get("upgrade"))
@@ -432,6 +436,16 @@ def run_task(desc):
         for u in U[desc["lo"]:desc["hi"]]:
             run(u, O[0])
         res["samples"].append({"url": make_url(U[desc["lo"]]), "options": "defaults"})
+    elif part == "hostforms":
+        # every way of writing a host (C18's list): the Host header repeats it (IPv6 in brackets), with the port unless it is 80 / 443
+        from . import c18
+        hosts = c18.HOST_NAMES + c18.HOST_V4 + ["[%s]" % h for h in c18.HOST_V6]
+        some = [O[0], O[(5 * 7 + 3) % len(O)], O[(11 * 13 + 101) % len(O)]]
+        for host in hosts:
+            for scheme, port in (("ws", None), ("wss", None), ("ws", 8080), ("wss", 443), ("ws", 443)):
+                for o in some:
+                    run((scheme, host, port, "/a/b", "x=1"), o)
+        res["samples"].append({"host_forms": hosts[:3] + hosts[-3:], "count": len(hosts)})
     elif part == "opts":
         for o in O:
             run(U[desc["url"]], o)
